@@ -429,7 +429,7 @@ impl Check for C11 {
         "fault_enumeration"
     }
     fn rule(&self) -> String {
-        "histories on one interpreter: 1-2 self-contained victim programs (progGen, block-wrapped script or module; with host holes, try/finally, generators, async helpers, planted uncaught throws) each ending by running out, dying of an uncaught error, being abandoned after s steps, or being left suspended on an unanswered order; then a fixed observer battery (typeof of victim names, re-declaration, closures, try/finally, generators, thrown error, order round trips) and a generated observer module. Crash points: quick = sampled step indices, thorough = EVERY step index in [0,T] for victims with T<=400 (larger ones sampled). Oracle: observer outcomes/console/traffic (order ids renumbered) equal those on a fresh interpreter; call_depth 0 before/after; H4 quiescence tuple equal. non-trivial = the victim did not simply complete (error, abandonment or suspension); distinct = distinct (victim outcome digest, crash point, how it ended)".into()
+        "histories on one interpreter: 1-2 self-contained victim programs (progGen, block-wrapped script or module; with host holes, try/finally, generators, async helpers, planted uncaught throws) each ending by running out, dying of an uncaught error, being abandoned after s steps, or being left suspended on an unanswered order; then a fixed observer battery (typeof of victim names, re-declaration, closures, try/finally, generators, thrown error, order round trips) and a generated observer module. Crash points: quick = sampled step indices, thorough = EVERY step index in [0,T] for victims with T<=400 (larger ones sampled). Oracle: observer outcomes/console/traffic (order ids renumbered) equal those on a fresh interpreter; call_depth 0 before/after; H4 quiescence tuple equal. non-trivial = the victim did not simply complete (error, abandonment or suspension); distinct = distinct (victim outcome digest, crash point, how it ended). Also: author-written corpus snippets as victims; victims and battery import the internal source module lib:util (probe() reads free identifiers); module-mode victims started with eval(); a slow host delivers answers to orders of dead runs while the battery waits for its first order; Interpreter::eval_bytecode as first observer (names of the dead run and, after module-mode victims, their imported names must be undefined); an observer importing the paths the dead runs had".into()
     }
     fn components(&self) -> Value {
         json!({"real": ["Interpreter prepare/step on a reused instance", "BytecodeVM", "scope/env/call-stack bookkeeping", "order ledger", "wait graph", "module environment handling", "gc.rs"],
